@@ -235,12 +235,16 @@ def _gen_alleles(rng, gene, opts):
         for _ in range(len(func)):
             k = rng.randint(2, min(3, len(func))) if len(func) >= 2 else 1
             cand.append(tuple(sorted(rng.sample(func, k))))
+    if opts.get("ambiguous"):
+        nmaj = max(nmaj, 3)
+    nadded = 0
     for c in cand:
-        if len(alleles) - 1 >= nmaj + 1:
+        if nadded >= nmaj:
             break
         if c in used_sets:
             continue
         used_sets.add(c)
+        nadded += 1
         sub = 1
         base = list(c)
         alleles.append({"name": f"{num}.{sub:03d}", "kind": "normal", "vars": base})
@@ -665,6 +669,9 @@ def sample_reads(world, sample):
                 n0 = len(reads)
                 _tile(cols, L, step, phase_rng.randint(0, step - 1), present,
                       f"{gene['name']}u{ui}g", reads)
+                if unit.get("depth", 1.0) < 1.0:
+                    drng = random.Random(f"{sample.get('phase_seed', 0)}:depth:{ui}")
+                    reads[n0:] = [r for r in reads[n0:] if drng.random() < unit["depth"]]
                 # noise: a fraction of this copy's reads show an extra SNP
                 for nz in unit.get("noise", []):
                     allv = dict(gene.get("unused_variants", {}))
@@ -693,6 +700,17 @@ def sample_reads(world, sample):
                     present = _intervals(gene["pregions"], flags, M, M)
                     _tile(cols, L, step, phase_rng.randint(0, step - 1), present,
                           f"{gene['name']}u{ui}p{c}", reads)
+    # depth noise: thin out the reads starting inside a region of one locus
+    for th in sample.get("thin", []):
+        gene = next(g for g in world["genes"] if g["name"] == th["gene"])
+        regs = gene["regions"] if th.get("which", "gene") == "gene" else gene["pregions"]
+        if not regs:
+            continue
+        a, b = next((a, b) for nm, a, b in regs if nm == th["region"])
+        trng = random.Random(f"{sample.get('phase_seed', 0)}:thin:{th['gene']}:{th['region']}")
+        tagp = f"{th['gene']}u"
+        reads = [r for r in reads
+                 if not (a <= r[0] < b and r[3].startswith(tagp) and trng.random() < th["p"])]
     # neutral region: two copies
     c0, c1 = world["neutral"]
     for c in range(sample.get("neutral_copies", 2)):
